@@ -957,6 +957,30 @@ func (d *Disk) RemoveAll(p string) {
 	}
 }
 
+// PruneEmptyDirs removes p's parent directories, innermost first, while they are
+// empty (stops at stopAt).
+func (d *Disk) PruneEmptyDirs(p string, stopAt string) {
+	defer d.lockEdit("prune", p, nil)()
+	p = d.abs(p)
+	for {
+		dir := path.Dir(p)
+		if dir == "/" || dir == stopAt || !strings.HasPrefix(dir, stopAt+"/") {
+			return
+		}
+		n, e := d.walk(dir, false, 0)
+		if e != 0 || n.kind != kDir || len(n.children) > 0 {
+			return
+		}
+		parent, base, e2 := d.parentOf(dir)
+		if e2 != 0 {
+			return
+		}
+		delete(parent.children, base)
+		parent.mtime = d.stamp()
+		p = dir
+	}
+}
+
 func (d *Disk) Rename(from, to string) {
 	defer d.lockEdit("rename", from+" -> "+to, nil)()
 	fp, fb, e := d.parentOf(from)
